@@ -117,6 +117,7 @@ func fdBody(pk *fdPicker, configs []fdConfig) (run fdRun) {
 	cfg := configs[ci]
 	depth := fdDepth(cfg.MaxRetries)
 	nw := simnet.New()
+	nw.ModelReusePort = true // sockets opened with reuseport.Control may share a port, as on Linux
 	nw.LogOff = true
 	sr := &scriptRand{}
 	last := 0
